@@ -680,8 +680,31 @@ def replay(rp) -> int:
 
 
 META = {
-    "text": "filled below",
-    "note": "filled below",
+    "text": ("Coq theorems (coq/Props/C12.v, closed under the global context) over a Gallina model of roi.Tiles / "
+             "VariableSizedTiles lookup and GeoboxTiles.range_from_bbox / tiles / grid_intersect, for all regular and variable "
+             "tilings: locate(p) is the unique tile containing p (IndexError exactly outside); a pixel-space box query never "
+             "fails and returns every non-empty tile whose pixel rectangle meets the interior of the box (all boxes: inside, "
+             "straddling, outside, larger, inverted); a geometry query returns exactly the range candidates the disjointness "
+             "oracle accepts; the linear dependency graph, for every scale+translation affine (mirrored, scaled, any shift), never "
+             "fails, has one entry per destination tile, lists every source tile overlapping the mapped destination tile (also "
+             "stated with a snapping tolerance delta), lists only tiles within one pixel of it, and has no edges when the rasters "
+             "do not overlap (apart or touching); the general path has an edge exactly for pairs both oracles report non-disjoint, "
+             "returns the empty graph when there is no common footprint, and fails only if an oracle fails.  Three defects of the "
+             "unchanged code were found/confirmed and repaired (F11, F14, F22); the model follows the repaired code and is tied to it "
+             "by an exact differential correspondence run plus brute-force predicates on the implementation."),
+    "note": ("Trusted: Coq kernel; the hand-written model coq/Model/TileQuery.v (validated by the correspondence run: exhaustive "
+             "per-axis pixel boxes on small tilings, linear pairs fed with the affine returned by the real _check_linear); "
+             "exact-rational abstraction of binary64.  Oracles (function parameters of the theorems, no Axiom): pixel-space "
+             "bounding box of a query (pyproj to_crs, shapely bounds, GeoBox.project), shapely disjoint, the common footprint via "
+             "EPSG:4326 and its emptiness.  What is NOT proved: that these oracles are geometrically adequate (a projected bounding "
+             "box encloses the query; disjoint is true geometric disjointness; the 2-pixel-buffered footprints intersect whenever the "
+             "rasters overlap) — tested by the geomquery/general predicates (positive-area overlap and sampled point completeness, "
+             "incl. mirrored grids and EPSG:4326 sources).  snap_affine/is_affine_st are not modelled: linear theorems quantify over "
+             "every scale+translation affine; the distance delta between snapped and true map is a hypothesis of the tolerance "
+             "theorem (translation < 1e-3, scale < 1e-6 relative for the real snap_affine; used as such by the search).  'Intersects' "
+             "is read as positive-area overlap: tiles that only touch a query/mapped tile along an edge need not be returned (the "
+             "repo's own tests require this).  Domain: tilings with base >= 1, tile size >= 1 / chunks >= 0 summing to the raster "
+             "shape; zero-size chunks are never required to be listed; int32 offsets of VariableSizedTiles below 2^31."),
     "technique": "Coq proof over hand-written Gallina model (Z/Q arithmetic, oracles as parameters) + exact differential correspondence (vm_compute) + brute-force property predicates",
     "design_ref": "DESIGN.md section 5, C12; section 6 F11, F14",
 }
